@@ -75,6 +75,7 @@ class Ctx:
         self.rules: dict[str, str] = {}
         self.exhaustive: bool | None = None  # set True by a module only when a finite space was enumerated completely
         self.bounds: list[str] = []  # stated bounds (loop unrolling, sample domains)
+        self.deferred: list[str] = []  # AnalysisErrors of guarded rules: reported (exit 2) only if no violation is found
 
     # -- declaring rules -------------------------------------------------------------------------
     def rule(self, rid: str, text: str) -> None:
@@ -87,9 +88,10 @@ class Ctx:
     def expect_instances(self, rule: str, minimum: int) -> None:
         n = len(self.instances.get(rule, []))
         if n < minimum:
-            raise AnalysisError(
+            # deferred: the remaining rules still run; a violation found elsewhere takes precedence over this exit-2 condition
+            self.deferred.append(
                 f"{rule}: matched {n} instances, fewer than the {minimum} confirmed by hand "
-                f"(anchor moved or changed shape): {self.instances.get(rule, [])}"
+                f"(anchor moved or changed shape): {str(self.instances.get(rule, []))[:400]}"
             )
 
     def func(self, file: str, qual: str) -> ast.AST:
@@ -115,6 +117,15 @@ class Ctx:
         if not cond:
             raise AnalysisError(msg)
         return cond
+
+    def guard(self, fn, *args, **kwargs):
+        """Run one rule; an AnalysisError inside it is deferred so that the property's other rules still run.
+        A violation found by another rule takes precedence (exit 1); otherwise the run ends as ANALYSIS-ERROR (exit 2)."""
+        try:
+            return fn(*args, **kwargs)
+        except AnalysisError as e:
+            self.deferred.append(str(e))
+            return None
 
     # -- verdicts --------------------------------------------------------------------------------
     def ok(self, rule: str, desc: str = "") -> None:
